@@ -225,7 +225,7 @@ fn base_announce() -> AnnounceRequest {
 
 pub fn main(args: &Args) -> ! {
     let mut run = Run::new(args, "exploration");
-    run.set("rule", "requests: events x numwant x key product, numeric and port extremes, every byte value at every identifier position, written by the library and parsed back; hand-built query strings: all permutations of 5 parameters, rotations, unknown keys at every position, identifiers in lower / upper hex and raw, identifier strings of length 0..=40 and out-of-range characters; replies: announce with 0..=60 peers per family, counts {0,1,max}, warnings, scrape with 0..=40 entries, failures, all compared byte for byte with an independent canonical bencode encoder, decoded with a strict decoder and parsed back. distinct = distinct byte strings; every case is compared against an independent oracle");
+    run.set("rule", "requests: events x numwant x key product, numeric and port extremes, every byte value at every identifier position, written by the library and parsed back; hand-built query strings: all permutations of 5 parameters (thorough: of all 9), rotations, unknown keys at every position, identifiers in lower / upper hex and raw, identifier strings of length 0..=40 and out-of-range characters; replies: announce with 0..=60 peers per family, counts {0,1,max}, warnings, scrape with 0..=40 entries, failures, all compared byte for byte with an independent canonical bencode encoder, decoded with a strict decoder and parsed back. distinct = distinct byte strings; every case is compared against an independent oracle");
     run.assume("the 'key' parameter is capped at 100 encoded bytes by the parser: keys beyond that are expected to be rejected, not to round-trip");
     run.assume("malformed percent escapes inside identifiers are not judged (the property states only the 20-byte rule)");
 
@@ -347,6 +347,16 @@ pub fn main(args: &Args) -> ! {
         ctx.path(&format!("/announce?{}", parts.join("&")), Some(&exp), "parameter-order");
     }
     let all: Vec<String> = perm_params.iter().chain(fixed.iter()).cloned().collect();
+    if args.tier.thorough() {
+        // every order of all nine parameters (362880 query strings)
+        let mut idx9: Vec<usize> = (0..all.len()).collect();
+        let mut perms9: Vec<Vec<usize>> = Vec::new();
+        heap(all.len(), &mut idx9, &mut perms9);
+        for p in perms9.iter() {
+            let parts: Vec<&str> = p.iter().map(|i| all[*i].as_str()).collect();
+            ctx.path(&format!("/announce?{}", parts.join("&")), Some(&exp), "parameter-order");
+        }
+    }
     for rot in 0..all.len() {
         let mut parts = all.clone();
         parts.rotate_left(rot);
